@@ -31,6 +31,71 @@ claim("C23", "model_checking", "fsmx",
       "All outgoing payloads of all explored histories (four roles, two chains, failure and cancel paths) are searched for every secret the simulation knows.",
       E1NOTE, "DESIGN.md §5 C23")
 
+
+ENUMNOTE = ("trusted base: the reference predicate / model written from the property statement inside the check; btcd / go-elements / bbolt; "
+            "the checked packages are built with their sync import rewritten to verif/vsync (plain mode = package sync)")
+
+claim("C07", "model_checking", "fsmx",
+      "explicit-state BFS by replay of both maker roles (peer silence, cancel / bad coop_close / invalid message, faults after the wallet broadcast, output orderings, restarts, crash at every effect op) + durable-record invariant + deterministic drain to CSV maturity with real spends validated by the btcd script engine",
+      "Exhaustive (bounded) histories of the real maker state machines; in every state the durable record is compared with the wallet's broadcast log, and every state with locked, unpaid funds is drained to CSV maturity where a consensus-valid refund must reach the simulated chain.",
+      E1NOTE, "DESIGN.md §5 C07")
+claim("C09", "model_checking", "fsmx",
+      "explicit-state BFS bringing the swap into every reachable state, then every message type x sender x id delivered; store bytes / in-memory data / active map compared before and after against the admissibility predicate",
+      "Every message type from counterparty and third party, with the id of the target swap or a fresh id, is delivered in every reachable state of every role (also between Start and RecoverSwaps); anything the statement does not admit must leave every swap byte-identical.",
+      E1NOTE, "DESIGN.md §5 C09")
+claim("C10", "model_checking", "fsmx",
+      "explicit-state BFS over sequences of local initiations and incoming requests in both channel-id spellings, time-outs and restarts; count of non-terminal swaps per normalised channel id after every event",
+      "All sequences (bounded) of initiations / requests / finishes / restarts on one channel in both spellings on the real service; the invariant is evaluated on the store after every event.",
+      E1NOTE, "DESIGN.md §5 C10")
+claim("C16", "model_checking", "fsmx",
+      "explicit-state BFS to enumerate start states (all four roles, two chains, faults, crash at every effect op) + deterministic fair drain from every one of them",
+      "Every state reached by the bounded search is a start state from which the peer goes silent; a deterministic fair continuation (time, blocks to CSV maturity, restarts, healthy services) must reach a terminal state with the channel released. Exhaustive over the enumerated start states, not a fairness-quantified liveness proof.",
+      E1NOTE, "DESIGN.md §5 C16")
+claim("C17", "model_checking", "fsmx",
+      "explicit-state BFS over delivery orders, dropped replies, virtual-time steps across the 10 minute timeout and restarts, under testing/synctest virtual time",
+      "All orders (bounded) of request / agreement / cancel / timeout / restart before the opening transaction for both requester roles and the swap-out responder; cancel state and cancel message are required once 10 virtual minutes have passed.",
+      E1NOTE, "DESIGN.md §5 C17")
+claim("C22", "model_checking", "fsmx",
+      "explicit-state BFS of maker histories after the announcement under virtual time; interval-agnostic monitor on the send instants of opening_tx_broadcasted",
+      "All maker histories (bounded) after the announcement interleaved with virtual-time steps; the real RedundantMessenger / Manager run on the fake clock and the oracle checks one arithmetic progression while waiting and at most one already-due copy afterwards.",
+      E1NOTE, "DESIGN.md §5 C22")
+claim("C02", "model_checking", "enum",
+      "bounded-exhaustive enumeration of witness stacks x sequences x tx versions on the real script, judged by the btcd script engine against the three families of the statement (suffix lemma validated by direct execution)",
+      "Every witness stack up to the stated length over the item alphabet, for every key pair / hash / CSV / sequence / version combination, is decided; exhaustive for the stated alphabets.",
+      ENUMNOTE, "DESIGN.md §5 C02")
+claim("C14", "model_checking", "enum",
+      "records collected from two-node explorations + per-field boundary mutations round-tripped through the real JSON codec; explicit-state search of the real bbolt store against a map model",
+      "Every collected record and every one/two-field boundary mutation reloads byte- and field-identically; the bbolt store is equivalent to a map for all operation sequences up to depth 4.",
+      ENUMNOTE, "DESIGN.md §5 C14")
+claim("C21", "model_checking", "enum",
+      "bounded-exhaustive enumeration of message field values through the real marshaller, and of (type string x payload) junk delivered to a real SwapService in every state of the honest runs",
+      "All message values over the field alphabets keep their protocol number and round-trip; every junk (type, payload) pair in every state leaves all swaps unchanged and does not panic.",
+      ENUMNOTE + "; receiving side runs on the simulated world of the fsmx engine", "DESIGN.md §5 C21")
+claim("C24", "model_checking", "enum",
+      "cartesian-product enumeration of invoices x channel ids x limits through the real CLN route builder, the real LND request builder and the real lnd.Client payment path over fake gRPC clients",
+      "Exhaustive over the stated grids; the produced route / SendPaymentRequest is compared with the single-hop / single-part / swap-channel predicate of the statement.",
+      ENUMNOTE + "; fake lnrpc / routerrpc clients", "DESIGN.md §5 C24")
+claim("C25", "model_checking", "enum",
+      "explicit-state BFS over policy operation sequences (incl. reload and restart) x initial file contents on the real policy.Policy against a two-set reference model",
+      "All operation sequences up to the bound (thorough: until the reachable state space closes) from nine initial file shapes; after every operation memory, file and a policy re-created from the file agree with the model.",
+      ENUMNOTE, "DESIGN.md §5 C25")
+claim("C27", "model_checking", "enum",
+      "grid enumeration of amount x rate against a big-integer reference; explicit-state BFS over rate operations on the real bbolt-backed premium.Setting; advertised-vs-charged comparison through the real PeerSync",
+      "Exhaustive for the stated grids and operation alphabets up to the stated depth.",
+      ENUMNOTE, "DESIGN.md §5 C27")
+claim("C28", "model_checking", "enum",
+      "explicit-state BFS by replay over peer-sync operation sequences (polls, request_polls, connects, disconnects, clock jumps, ticks, reopen) on the real PeerSync in testing/synctest bubbles against a reference model",
+      "All operation sequences up to the stated depth over 2-3 peers with virtual time; store contents, rate limiting, expiry and compatibility are compared with the model after every operation.",
+      ENUMNOTE + "; go1.26.8 testing/synctest", "DESIGN.md §5 C28")
+claim("C29", "model_checking", "enum",
+      "exhaustive enumeration of store contents (0-2 swaps in every (type, role, state)) x stored versions through the real SafeUpgrade on real bbolt files",
+      "Complete enumeration of the stated alphabet; version and every swap record are compared byte-for-byte before and after.",
+      ENUMNOTE, "DESIGN.md §5 C29")
+claim("C30", "model_checking", "enum",
+      "cartesian-product enumeration of estimator answers x floors x sizes, version strings, and all pairs / triples of a version-string set against reference order axioms",
+      "Exhaustive for the stated alphabets.",
+      ENUMNOTE, "DESIGN.md §5 C30")
+
 NA_REASON = "check not built yet in this session (planned, see DESIGN.md §5)"
 
 def main():
